@@ -526,8 +526,8 @@ class RawSftp:
         n = struct.unpack('>I', hdr)[0]
         return await self.r.readexactly(n)
 
-    async def init(self, version=3):
-        self.send(bytes([INIT]) + u32(version))
+    async def init(self, version=3, ext=b''):
+        self.send(bytes([INIT]) + u32(version) + ext)
         p = await self.recv()
         r = Reader(p, 1)
         ver = r.u32()
